@@ -75,6 +75,7 @@ type world struct {
 	counters map[string]int
 	fmtRecs  []fmtRec
 	aesRecs  []aesRec
+	md5Recs  []md5Rec
 }
 
 var anyType = types.NewInterfaceType(nil, nil).Complete()
